@@ -195,6 +195,11 @@ def run(ctx):
     only_menv = (("MarketEnv", m.menv_fn, "market"),)
     c10.env_rules(ctx, m, only_menv)
     c11.step_rules(ctx, m, only_menv)
+    # the all-asset level-2 query returns each book's own view (rule shared with C02: Market::level_2_data[i] is book i's
+    # level_2_data / the same literal over book i's queries, unconditionally)
+    from . import c02
+    from .c06 import _Prefixed as _P
+    c02.views(_P(ctx, "all-asset-"), m)
     # .. and applies EVERY queued instruction of every asset, once, at start + position (each asset's history equals that of a
     # stand-alone book fed that asset's operations at the same times): the batch rules of C08 on the multi-asset step
     from . import c08
